@@ -128,7 +128,7 @@ func genJNode(t *rapid.T, depth int) jnode {
 // word sizes a nesting stack might be packed into, and far beyond), each level
 // an object or an array with a few scalar siblings before and after the deep child.
 func genSpine(t *rapid.T, inner jnode) jnode {
-	depth := []int{20, 31, 32, 33, 63, 64, 65, 66, 100, 127, 128, 129, 200, 260}[rapid.IntRange(0, 13).Draw(t, "spinedepth")]
+	depth := []int{20, 31, 32, 33, 63, 64, 65, 66, 65, 100, 127, 128, 129, 200}[rapid.IntRange(0, 13).Draw(t, "spinedepth")]
 	cur := inner
 	for i := 0; i < depth; i++ {
 		n := jnode{K: "arr"}
@@ -379,7 +379,7 @@ var c15 = &vh.Prop[c15Case]{
 		var c c15Case
 		for i := 0; i < n; i++ {
 			d := c15Doc{Tree: genJNode(t, rapid.IntRange(0, 5).Draw(t, "depth"))}
-			if rapid.IntRange(0, 15).Draw(t, "spine") == 0 {
+			if rapid.IntRange(0, 39).Draw(t, "spine") == 0 {
 				d.Tree = genSpine(t, d.Tree)
 			}
 			if i < n-1 && rapid.IntRange(0, 3).Draw(t, "abandon") == 0 {
